@@ -303,7 +303,7 @@ def judge_views(rec, rnd):
             ('Tagged', '"recurring" in tags'), ('Monthly', 'max(sum(by("month"))) > 100')]
     views = rnd.sample(good, rnd.randint(2, 4))
     poison = rnd.choice(VIEW_POISONS)
-    mode = rnd.choice(['filter', 'filter-and', 'local-var', 'global-var'])
+    mode = rnd.choice(['filter', 'filter-and', 'local-var', 'global-var', 'local-shadows-global'])
     def text(vs, gl=''):
         return gl + '\n'.join('[%s]\n%sfilter: %s\n' % (n, ''.join('%s = %s\n' % lv for lv in loc), f) for n, loc, f in vs)
     base = [(n, [], f) for n, f in views]
@@ -315,6 +315,15 @@ def judge_views(rec, rnd):
         pv = base[:]
         pv.insert(rnd.randint(0, len(pv)), ('Poisoned', [], '(%s) and true' % poison))
         ptxt, btxt, gone = text(pv), text(base), 'Poisoned'
+    elif mode == 'local-shadows-global':
+        # a view redefines a GLOBAL variable locally with something that cannot be evaluated; the views that use the global are untouched
+        gl = 'thr = %s\n' % rnd.choice(['100', '20', 'total / 2'])
+        users = [('UsesG1', [], 'total > thr'), ('UsesG2', [], 'months >= 1 and total >= thr')]
+        base = base + users
+        rnd.shuffle(base)
+        pv = base[:]
+        pv.insert(rnd.randint(0, len(pv)), ('Poisoned', [('thr', poison)], 'total > thr'))
+        ptxt, btxt, gone = text(pv, gl), text(base, gl), None
     elif mode == 'local-var':
         i = rnd.randrange(len(base))
         pv = base[:]
